@@ -53,5 +53,5 @@ CHECK = {
     "explanation": "",
     "bounds": {},
     "assumptions": [],
-    "timeout_ms": {"quick": 400000, "thorough": 1800000},
+    "timeout_ms": {"quick": 900000, "thorough": 1800000},
 }
